@@ -381,6 +381,12 @@ var queryValues = [][]string{nil, {}, {""}, {"a"}, {"a", "b"}, {"1"}, {"1", "2",
 	{"2020-01-01"}, {"2020-01-01T00:00:00Z"}, {"1.5"}, {"-1"}, {"99999999999999999999"}, {"abc"}, {"AQID"}, {strings.Repeat("9", 400)}, {`{"zz":1}`}, {"  "}, {"{}x"}}
 
 func (im *impl) genFuzzQuery(h *vh.H, i int) string {
+	if (i/5)%3 == 0 {
+		// index-like / empty path segments after every property kind (querypath.go)
+		if op := im.genIndexedQuery(h, fuzzIndexSegs, true, ""); op != "" {
+			return op
+		}
+	}
 	ts, md := im.pickTarget(h)
 	root := ts.rootOf(md)
 	mode := pickMode(h)
@@ -466,6 +472,10 @@ func (im *impl) genStress(h *vh.H, i int) string {
 	if i%10 == 9 {
 		// numbers with huge exponents: must be rejected at once
 		return im.genExponent(h, true, false)
+	}
+	if i%10 == 4 {
+		// query keys with a huge index segment: must be rejected at once (querypath.go)
+		return im.genIndexedQuery(h, hugeIndexSegs, false, []string{"test.schema.v1.FullSchema", "g1.v1.Tree", "g0.v1.All"}[h.Rng.IntN(3)])
 	}
 	switch i % 9 {
 	case 0: // valid recursion through Tree.left
